@@ -3,17 +3,28 @@
  *
  * Functions under contract (extracted from /repo on every run):
  *   Zones::Exclusion::{split_at, left_trim, operator+=, outcode, cost, test_position, track_cost}     src/Intervals.cpp
- *   Zones::Exclusion::Exclusion, Exclusion::weighted<XY>, weighted<SD>, Zones::initialise<XY|SD>,
+ *   Zones::Exclusion::Exclusion, Exclusion::weighted<XY>, weighted<SD>, Zones::Zones, Zones::initialise<XY|SD>,
  *   Zones::weighted<XY|SD>, Zones::weightedAxis, Zones::exclude                                        src/inc/Intervals.h
  *   Zones::insert, Zones::remove, Zones::exclude_with_margins, Zones::find_exclusion_under, Zones::closest, separated
  *                                                                                                      src/Intervals.cpp
- *   Vector<Exclusion>::{begin,end,size,capacity,front,operator[],reserve,_insert_default,insert(p,x),erase(p),
+ *   Vector<Exclusion>::{Vector(),begin,end,size,capacity,front,operator[],reserve,_insert_default,insert(p,x),erase(p),
  *   erase(first,last),clear,push_back}, distance                                                       src/inc/List.h
  *   min, max, checked_mul (HAVE_BUILTIN_OVERFLOW variant)                                              src/inc/Main.h
  *
  * Scope (DESIGN.md, C17): clause 3 of the property only.  Clauses 1 and 2 (limit rectangle, resolved => octaboxes
  * disjoint) are statements about ~40 single-precision expressions of ShiftCollider::mergeSlot/initSlot in real
  * arithmetic; they are not decided here (src/Collider.cpp is not under contract).
+ *
+ * Structure (two levels, because goto-instrument's contract replacement inside unwound loops does not terminate in
+ * useful time - measured > 10 min for one interval):
+ *   level 1  the Exclusion methods (unbounded proofs, dfcc) and the two vector mutators Vector::insert / Vector::erase
+ *            (dfcc --enforce-contract on the extracted List.h code, bounded element-wise contracts, units c17_vec_*);
+ *   level 2  Zones::insert / remove / exclude_with_margins / closest / find_exclusion_under / initialise: the extracted
+ *            bodies run in a plain CBMC harness (no dfcc); their calls to Vector::insert / erase go through the ghost
+ *            wrappers Vector_insert_g / Vector_erase_g which APPLY the level-1 contract by hand: assert the requires
+ *            macro, havoc the assigns clause, assume the ensures macros (the very same macros the level-1 units prove).
+ *            Pre- and postconditions of level 2 are the *_PRE / *_POST macros below, assumed / asserted by the harness;
+ *            the frame (only the vector changes) is asserted explicitly.
  *
  * Float model: CBMC's bit-precise IEEE-754 single precision, round to nearest (x86-64 SSE, FLT_EVAL_METHOD 0).
  * Tracing: the non-tracing build (GRAPHITE2_NTRACING); with tracing addDebug/removeDebug only append to a debug log
@@ -29,7 +40,11 @@
 #ifndef NV
 #define NV 4            /* bounded units: largest number of intervals present before the operation */
 #endif
+#ifndef CAPV
+#define CAPV 8          /* bounded units: capacity of the (single, exact-size) storage object the harness allocates */
+#endif
 
+/* ---- level 1: unbounded proofs (loop-free) */
 /*@unit {'name':'c17_excl_ops', 'props':['C17'], 'entry':'h_excl_ops',
          'enforce':['Exclusion_split_at','Exclusion_left_trim','Exclusion_add','Exclusion_outcode'],
          'replay':'c17_zones', 'witness_defines':[], 'witness_vars':['w_x','w_xm','w_p'],
@@ -42,21 +57,50 @@
 /*@unit {'name':'c17_weighted', 'props':['C17'], 'entry':'h_weighted', 'enforce':['Exclusion_weighted_XY','Exclusion_weighted_SD'],
          'claims':'Exclusion::weighted<XY>/<SD> build the interval [xmin,xmax] unchanged, closed flag clear, with weight sum >= 0 for non-negative weights and >= 0.5 for the initial interval (f = 1, m = 0)'}@*/
 
-/*@unit {'name':'c17_remove', 'props':['C17'], 'entry':'h_remove', 'enforce':'Zones_remove', 'replace':['Vector_insert','Vector_erase'], 'kind':'bounded', 'unwind':9, 'loop_contracts':False, 'defines':['NV=4'],
-         'bound':'at most 4 intervals present before the call (any capacity >= size, so both the in-place and the reallocating path of Vector::insert are taken at every size); all loops unwound 8 times with unwinding assertions',
-         'replay':'c17_zones', 'witness_defines':[], 'witness_vars':['w_n','w_cap','w_x','w_xm','w_pos','w_posm','w_a','w_b','w_pt'],
-         'claims':'Zones::remove(x,xm) on a sorted, disjoint, in-bounds interval set leaves it sorted, disjoint and in bounds; afterwards no interval contains a point of the open range (x,xm); every point covered afterwards was covered before (nothing is re-opened); every point covered before and outside [x,xm] is still covered; the weight sums stay positive; only the vector is written; no access outside the vector storage (exact-size buffer, freed storage is never touched)'}@*/
-/*@unit {'name':'c17_insert', 'props':['C17'], 'entry':'h_insert', 'enforce':'Zones_insert', 'replace':['Vector_insert','Vector_erase'], 'kind':'bounded', 'unwind':9, 'loop_contracts':False, 'defines':['NV=4'],
-         'bound':'at most 4 intervals present before the call (any capacity >= size); all loops unwound 8 times with unwinding assertions',
-         'replay':'c17_zones', 'witness_defines':[], 'witness_vars':['w_n','w_cap','w_x','w_xm','w_pos','w_posm','w_a','w_b','w_pt'],
-         'claims':'Zones::insert(e) (weighted insert) keeps the interval set sorted, disjoint and in bounds and does not change the set of covered points (it never re-opens an excluded position and never loses a free one); a point strictly inside an interval and strictly inside e gets exactly e added to its three cost terms, a point outside [e.x,e.xm] keeps its cost terms; weight sums stay positive for non-negative e.sm'}@*/
-
-/*@unit {'name':'c17_vec_insert', 'props':['C17'], 'entry':'h_vec_insert', 'enforce':'Vector_insert', 'kind':'bounded', 'unwind':9, 'loop_contracts':False,
-         'bound':'vectors of at most 7 elements before the call, capacity 1..8 (exact-size storage object); ghost snapshot loop unwound 8 times',
-         'claims':'Vector<Exclusion>::insert(p,x) (with _insert_default and reserve, on CBMC\'s realloc/memmove models): size grows by one, the returned iterator addresses slot p-begin() of the possibly moved storage, slots before it keep their value, the slot holds x, later slots hold their left neighbour\'s old value (bit-wise); storage is kept when the size rounded up to 8 fits, else moved to a fresh block of 8 and the old block is freed; no access outside the storage object'}@*/
-/*@unit {'name':'c17_vec_erase', 'props':['C17'], 'entry':'h_vec_erase', 'enforce':'Vector_erase', 'kind':'bounded', 'unwind':9, 'loop_contracts':False,
-         'bound':'vectors of at most 8 elements, capacity 1..8 (exact-size storage object); destructor loop and ghost snapshot loop unwound 8 times',
+/* ---- level 1: the vector mutators (dfcc enforce, bounded: element-wise contract over 8 slots) */
+/*@unit {'name':'c17_vec_insert_c8', 'props':['C17'], 'entry':'h_vec_insert', 'enforce':'Vector_insert', 'kind':'bounded', 'unwind':9, 'loop_contracts':False, 'defines':['CAPV=8'], 'cost':60,
+         'bound':'capacity 8 (what Zones() reserves), 0..7 elements before the call, any insertion point; loops of the element-wise libc models and of the ghost snapshot unwound 8 times',
+         'claims':'Vector<Exclusion>::insert(p,x) with _insert_default and reserve: size grows by one, the returned iterator addresses slot p-begin(), slots before it keep their value, the slot holds x, later slots hold their left neighbour\'s old value (bit-wise); the storage block is kept (the size rounded up to 8 fits); no access outside the exact-size storage object; only the vector is written'}@*/
+/*@unit {'name':'c17_vec_insert_c4', 'props':['C17'], 'entry':'h_vec_insert', 'enforce':'Vector_insert', 'kind':'bounded', 'unwind':9, 'loop_contracts':False, 'defines':['CAPV=4'], 'cost':60,
+         'bound':'capacity 4 (a full or nearly full block smaller than 8), 0..4 elements before the call; loops unwound 8 times',
+         'claims':'Vector<Exclusion>::insert(p,x) when the block must grow: same element-wise result, the storage moves to a fresh block of 8, the old block is freed and the returned iterator points into the new block'}@*/
+/*@unit {'name':'c17_vec_erase_c8', 'props':['C17'], 'entry':'h_vec_erase', 'enforce':'Vector_erase', 'kind':'bounded', 'unwind':9, 'loop_contracts':False, 'defines':['CAPV=8'], 'cost':40,
+         'bound':'capacity 8, 1..8 elements; destructor loop, libc-model loops and ghost snapshot unwound 8 times',
          'claims':'Vector<Exclusion>::erase(p): size shrinks by one, storage and capacity are kept, slots before p keep their value, slots from p on hold their right neighbour\'s old value, the returned iterator is p; no access outside the storage object'}@*/
+/*@unit {'name':'c17_vec_erase_c4', 'props':['C17'], 'entry':'h_vec_erase', 'enforce':'Vector_erase', 'kind':'bounded', 'unwind':9, 'loop_contracts':False, 'defines':['CAPV=4'], 'cost':40,
+         'bound':'capacity 4, 1..4 elements; loops unwound 8 times', 'claims':'same as c17_vec_erase_c8 for a block of 4'}@*/
+
+/* ---- level 2: the interval-set operations (plain harness, Vector::insert/erase applied by contract) */
+/*@unit {'name':'c17_remove_c8', 'props':['C17'], 'entry':'h_remove', 'kind':'bounded', 'unwind':9, 'unwindset':['Zones_remove.0:7'], 'loop_contracts':False, 'defines':['NV=4','CAPV=8','VEC_BY_CONTRACT'], 'cost':50,
+         'bound':'at most 4 intervals before the call in a block of capacity 8 (no reallocation); main loop unwound 6 times, helper loops 8 times, unwinding assertions on',
+         'replay':'c17_zones', 'witness_defines':[], 'witness_vars':['w_n','w_x','w_xm','w_c','w_sm','w_smx','w_pos','w_posm','w_a','w_b','w_pt'],
+         'claims':'Zones::remove(x,xm) on a sorted, disjoint, in-bounds interval set leaves it sorted, disjoint and in bounds; afterwards no interval contains a point of the open range (x,xm); every point offered afterwards was offered before (nothing is re-opened); every point offered before and outside [x,xm] is still offered; weight sums stay positive; only the vector changes; Vector::insert/erase are called within their contracts'}@*/
+/*@unit {'name':'c17_remove_c4', 'props':['C17'], 'entry':'h_remove', 'kind':'bounded', 'unwind':9, 'unwindset':['Zones_remove.0:7'], 'loop_contracts':False, 'defines':['NV=4','CAPV=4','VEC_BY_CONTRACT'], 'cost':50,
+         'bound':'at most 4 intervals in an exact-size block of capacity 4: every split reallocates (storage moves, old block freed); loops as in c17_remove_c8',
+         'replay':'c17_zones', 'witness_defines':[], 'witness_vars':['w_n','w_x','w_xm','w_c','w_sm','w_smx','w_pos','w_posm','w_a','w_b','w_pt'],
+         'claims':'same as c17_remove_c8 when the split has to grow the vector: the iterator is re-seated on the new block and the freed block is never touched; with 4 live intervals any access past the live elements is outside the storage object'}@*/
+/*@unit {'name':'c17_insert_c8', 'props':['C17'], 'entry':'h_insert', 'kind':'bounded', 'unwind':9, 'unwindset':['Zones_insert.0:7'], 'loop_contracts':False, 'defines':['NV=4','CAPV=8','VEC_BY_CONTRACT'], 'cost':80,
+         'bound':'at most 4 intervals before the call in a block of capacity 8; main loop unwound 6 times, helper loops 8 times',
+         'replay':'c17_zones', 'witness_defines':[], 'witness_vars':['w_n','w_x','w_xm','w_c','w_sm','w_smx','w_pos','w_posm','w_a','w_b','w_pt','w_ec','w_esm','w_esmx'],
+         'claims':'Zones::insert(e) (weighted insert) keeps the interval set sorted, disjoint and in bounds and does not change the set of offered points (it never re-opens an excluded position and never loses a free one); a point strictly inside an interval and strictly inside e gets exactly e added to its three cost terms, a point strictly inside an interval and outside [e.x,e.xm] keeps its cost terms; weight sums stay positive for non-negative e.sm; only the vector changes'}@*/
+/*@unit {'name':'c17_insert_c4', 'props':['C17'], 'entry':'h_insert', 'kind':'bounded', 'unwind':9, 'unwindset':['Zones_insert.0:7'], 'loop_contracts':False, 'defines':['NV=4','CAPV=4','VEC_BY_CONTRACT'], 'cost':80,
+         'bound':'at most 4 intervals in an exact-size block of capacity 4: the first split reallocates; loops as in c17_insert_c8',
+         'replay':'c17_zones', 'witness_defines':[], 'witness_vars':['w_n','w_x','w_xm','w_c','w_sm','w_smx','w_pos','w_posm','w_a','w_b','w_pt','w_ec','w_esm','w_esmx'],
+         'claims':'same as c17_insert_c8 when a split has to grow the vector (iterators re-seated, freed block never touched)'}@*/
+/*@unit {'name':'c17_exclude_margins', 'props':['C17'], 'entry':'h_exclude_margins', 'kind':'bounded', 'unwind':9, 'unwindset':['Zones_remove.0:5','Zones_insert.0:8'], 'loop_contracts':False, 'defines':['NV=2','CAPV=8','VEC_BY_CONTRACT'], 'cost':90,
+         'bound':'at most 2 intervals before the call (at most 7 during it), capacity 8; loops unwound up to 8 times',
+         'replay':'c17_zones', 'witness_defines':[], 'witness_vars':['w_n','w_x','w_xm','w_c','w_sm','w_smx','w_pos','w_posm','w_a','w_b','w_pt','w_axis','w_mlen','w_mwt'],
+         'claims':'Zones::exclude_with_margins(xmin,xmax,axis) = remove + two margin-weight inserts: the set stays sorted, disjoint and in bounds, offers no point of (xmin,xmax), offers nothing that was not offered before, keeps every point outside [xmin,xmax], and keeps weight sums positive for a non-negative margin weight'}@*/
+/*@unit {'name':'c17_closest', 'props':['C17'], 'entry':'h_closest', 'kind':'bounded', 'unwind':9, 'loop_contracts':False, 'defines':['NV=6','CAPV=6'], 'cost':30,
+         'bound':'at most 6 intervals in an exact-size block; all loops unwound 8 times',
+         'replay':'c17_zones', 'witness_defines':[], 'witness_vars':['w_n','w_x','w_xm','w_c','w_sm','w_smx','w_pos','w_posm','w_a'],
+         'claims':'Zones::closest(origin,cost) on a sorted disjoint set whose intervals have non-zero weight sums and finite linear terms: either reports cost -1 (no candidate; this is what ShiftCollider::resolve reads as "no free point on this axis") or returns a position that lies inside one of the free intervals; an empty set always reports -1; reads stay inside the live elements (iterators begin()-1 / start-1 are formed but never dereferenced); nothing is written but *cost'}@*/
+/*@unit {'name':'c17_find_under', 'props':['C17'], 'entry':'h_find_under', 'kind':'bounded', 'unwind':9, 'loop_contracts':False, 'defines':['NV=6','CAPV=6'], 'cost':10,
+         'bound':'at most 6 intervals in an exact-size block; binary-search loop unwound 8 times',
+         'claims':'Zones::find_exclusion_under(x) returns an iterator in [begin,end]; every interval before it ends at or before x, every interval after it starts after x, and the interval it addresses (if any) contains x or starts after x; operator[] is called with an index below size()'}@*/
+/*@unit {'name':'c17_initialise', 'props':['C17'], 'entry':'h_initialise', 'kind':'bounded', 'unwind':9, 'loop_contracts':False, 'defines':['NV=4','CAPV=8'], 'cost':20,
+         'bound':'a freshly constructed Zones (Zones(): reserve(8) from the empty vector) or a used one with at most 4 intervals in a block of 8; loops unwound 8 times',
+         'claims':'Zones::Zones() + Zones::initialise<XY|SD>(xmin,xmax,margin,weight,a0) leave exactly one open interval [xmin,xmax] with weight sum >= 0.5, bounds _pos=xmin, _posm=xmax and the margin parameters stored: sorted, disjoint and in bounds whenever xmin <= xmax'}@*/
 
 /* ------------------------------------------------------------------ shim structs (fields as in Intervals.h / List.h) */
 typedef struct Exclusion { float x, xm, c, sm, smx; bool open; } Exclusion;
@@ -68,6 +112,7 @@ enum zones_t { SD, XY };
 
 #define NNAN(f) (!__CPROVER_isnanf(f))
 #define FIN(f)  (!__CPROVER_isnanf(f) && !__CPROVER_isinff(f))
+float nondet_float(void); bool nondet_bool(void); size_t nondet_size_t(void); uint32 nondet_u32(void); int nondet_int(void);
 
 /* ------------------------------------------------------------------ ghost state */
 Exclusion *g_e;  Exclusion g_e0;          /* the interval an Exclusion method works on, and its value before the call */
@@ -125,18 +170,20 @@ __CPROVER_ensures(__CPROVER_return_value.x == xmin && __CPROVER_return_value.xm 
 __CPROVER_ensures((f >= 0 && m >= 0) ==> __CPROVER_return_value.sm >= 0)
 __CPROVER_ensures((f == 1 && m == 0) ==> __CPROVER_return_value.sm >= 0.5f);
 
-#define VSZ(v) ((size_t)((v)->m_last - (v)->m_first))
-/* ------------------------------------------------------------------ contracts: Vector<Exclusion> element moves
+/* ------------------------------------------------------------------ contracts: Vector<Exclusion>::insert(p,x) / erase(p)
  * Element-wise over the first VMAX slots (quantifier-free).  The value of the vector before the call is a ghost snapshot
- * (g_v0, g_n0, g_cap0, g_first0) taken by the ghost wrappers Vector_insert_g / Vector_erase_g through which the extracted
- * Zones code calls the vector.  Elements are compared bit-wise (they are moved with memmove/realloc, NaNs included). */
+ * (g_v0, g_n0, g_cap0, g_first0, g_idx) taken by vec_snapshot().  Elements are compared bit-wise (they are moved as raw
+ * memory, NaNs included).  The same macros are (a) the requires/ensures clauses proved on the extracted List.h code by
+ * the c17_vec_* units and (b) what the ghost wrappers Vector_insert_g / Vector_erase_g assert / assume when the extracted
+ * Zones code calls the vector (level 2). */
 #define VMAX 8
 #define ESZ ((long)sizeof(Exclusion))
+#define VSZ(v)  ((size_t)((v)->m_last - (v)->m_first))
+#define VCAP(v) ((size_t)((v)->m_end - (v)->m_first))
 Exclusion g_v0[VMAX + 1]; size_t g_n0, g_cap0, g_idx; Exclusion *g_first0;
 #define FBITS(f) (*(const uint32 *)&(f))
 #define EL_EQ(a, b) (FBITS((a).x) == FBITS((b).x) && FBITS((a).xm) == FBITS((b).xm) && FBITS((a).c) == FBITS((b).c) && FBITS((a).sm) == FBITS((b).sm) \
                      && FBITS((a).smx) == FBITS((b).smx) && (a).open == (b).open)
-#define VCAP(v) ((size_t)((v)->m_end - (v)->m_first))
 /* a well-formed vector whose storage is one exact-size heap object */
 #define VEC_OK(v) ((v)->m_first != NULL && SAME((v)->m_first, (v)->m_last) && SAME((v)->m_first, (v)->m_end) && OFF((v)->m_first) == 0 \
                    && OFF((v)->m_last) >= 0 && OFF((v)->m_last) % ESZ == 0 && OFF((v)->m_last) <= OFF((v)->m_end) && OFF((v)->m_end) % ESZ == 0 \
@@ -144,47 +191,88 @@ Exclusion g_v0[VMAX + 1]; size_t g_n0, g_cap0, g_idx; Exclusion *g_first0;
 #define SNAP1(v, k) ((k) >= g_n0 || EL_EQ((v)->m_first[k], g_v0[k]))
 #define SNAP_OK(v) (VSZ(v) == g_n0 && VCAP(v) == g_cap0 && (v)->m_first == g_first0 \
                     && SNAP1(v,0) && SNAP1(v,1) && SNAP1(v,2) && SNAP1(v,3) && SNAP1(v,4) && SNAP1(v,5) && SNAP1(v,6) && SNAP1(v,7))
+/* the universe the level-1 units cover: a block of 8 with room, or a block of 4 */
+#define CAP_COVERED(n, cap) ((cap) == 8 || ((cap) == 4 && (n) <= 4))
+#define GROWS(n, cap) (((((n) + 1 + 7) >> 3) << 3) > (cap))         /* _insert_default: reserve(round-up-to-8(size+1)) reallocates */
+
+#define VEC_INSERT_PRE(v, p)  (VEC_OK(v) && SNAP_OK(v) && g_n0 < VMAX && CAP_COVERED(g_n0, g_cap0) \
+                               && SAME(p, (v)->m_first) && OFF(p) == (long)g_idx * ESZ && g_idx <= g_n0)
 /* after insert at g_idx: slot k holds old k (k < idx), x (k == idx), old k-1 (k > idx) */
 #define INS1(v, k, x) ((k) > g_n0 || ((k) < g_idx ? EL_EQ((v)->m_first[k], g_v0[k]) : (k) == g_idx ? EL_EQ((v)->m_first[k], x) : EL_EQ((v)->m_first[k], g_v0[(k) - 1])))
+#define VEC_INSERT_POST_SHAPE(v, r) (VEC_OK(v) && VSZ(v) == g_n0 + 1 && (r) == (v)->m_first + g_idx)
+#define VEC_INSERT_POST_ELEMS(v, x) (INS1(v,0,x) && INS1(v,1,x) && INS1(v,2,x) && INS1(v,3,x) && INS1(v,4,x) && INS1(v,5,x) && INS1(v,6,x) && INS1(v,7,x))
+/* storage: kept when the rounded-up size fits, otherwise moved to a new block of 8 and the old block is released */
+#define VEC_INSERT_POST_STORE(v, freed) (GROWS(g_n0, g_cap0) ? (VCAP(v) == 8 && (v)->m_first != g_first0 && (freed)) : (VCAP(v) == g_cap0 && (v)->m_first == g_first0))
+
+#define VEC_ERASE_PRE(v, p)   (VEC_OK(v) && SNAP_OK(v) && g_n0 <= VMAX && CAP_COVERED(g_n0, g_cap0) \
+                               && SAME(p, (v)->m_first) && OFF(p) == (long)g_idx * ESZ && g_idx < g_n0)
 /* after erase at g_idx: slot k holds old k (k < idx), old k+1 (k >= idx) */
 #define ERA1(v, k) ((k) + 1 >= g_n0 || ((k) < g_idx ? EL_EQ((v)->m_first[k], g_v0[k]) : EL_EQ((v)->m_first[k], g_v0[(k) + 1])))
-#define GROWS(n, cap) (((((n) + 1 + 7) >> 3) << 3) > (cap))         /* _insert_default: reserve(round-up-to-8(size+1)) reallocates */
-#define VEC_GHOST g_n0, g_cap0, g_idx, g_first0, __CPROVER_object_whole(g_v0)
+#define VEC_ERASE_POST_SHAPE(v, r, p) (VEC_OK(v) && VSZ(v) == g_n0 - 1 && VCAP(v) == g_cap0 && (v)->m_first == g_first0 && (r) == (p))
+#define VEC_ERASE_POST_ELEMS(v) (ERA1(v,0) && ERA1(v,1) && ERA1(v,2) && ERA1(v,3) && ERA1(v,4) && ERA1(v,5) && ERA1(v,6) && ERA1(v,7))
 
 Exclusion *Vector_insert(Exclusions *self, Exclusion *p, const Exclusion x)
-__CPROVER_requires(VEC_OK(self) && SNAP_OK(self) && g_n0 < VMAX)
-__CPROVER_requires(SAME(p, self->m_first) && OFF(p) == (long)g_idx * ESZ && g_idx <= g_n0)
+__CPROVER_requires(VEC_INSERT_PRE(self, p))
 __CPROVER_assigns(self->m_first, self->m_last, self->m_end, __CPROVER_object_whole(self->m_first))
 __CPROVER_frees(self->m_first)
-__CPROVER_ensures(VEC_OK(self) && VSZ(self) == g_n0 + 1)
-__CPROVER_ensures(__CPROVER_return_value == self->m_first + g_idx)                      /* the refreshed iterator */
-__CPROVER_ensures(INS1(self,0,x) && INS1(self,1,x) && INS1(self,2,x) && INS1(self,3,x) && INS1(self,4,x) && INS1(self,5,x) && INS1(self,6,x) && INS1(self,7,x))
-/* storage: kept when the rounded-up size fits, otherwise moved to a new block of 8 and the old block is released */
-__CPROVER_ensures(GROWS(g_n0, g_cap0) ? (VCAP(self) == 8 && self->m_first != g_first0 && __CPROVER_was_freed(g_first0))
-                                      : (VCAP(self) == g_cap0 && self->m_first == g_first0));
+__CPROVER_ensures(VEC_INSERT_POST_SHAPE(self, __CPROVER_return_value))
+__CPROVER_ensures(VEC_INSERT_POST_ELEMS(self, x))
+__CPROVER_ensures(VEC_INSERT_POST_STORE(self, __CPROVER_was_freed(g_first0)));
 
 Exclusion *Vector_erase(Exclusions *self, Exclusion *p)
-__CPROVER_requires(VEC_OK(self) && SNAP_OK(self) && g_n0 <= VMAX)
-__CPROVER_requires(SAME(p, self->m_first) && OFF(p) == (long)g_idx * ESZ && g_idx < g_n0)
+__CPROVER_requires(VEC_ERASE_PRE(self, p))
 __CPROVER_assigns(self->m_last, __CPROVER_object_whole(self->m_first))
-__CPROVER_ensures(VEC_OK(self) && VSZ(self) == g_n0 - 1 && VCAP(self) == g_cap0 && self->m_first == g_first0)
-__CPROVER_ensures(__CPROVER_return_value == p)
-__CPROVER_ensures(ERA1(self,0) && ERA1(self,1) && ERA1(self,2) && ERA1(self,3) && ERA1(self,4) && ERA1(self,5) && ERA1(self,6) && ERA1(self,7));
+__CPROVER_ensures(VEC_ERASE_POST_SHAPE(self, __CPROVER_return_value, p))
+__CPROVER_ensures(VEC_ERASE_POST_ELEMS(self));
 
-/* ghost wrappers: snapshot, then the call */
 static void vec_snapshot(const Exclusions *v, const Exclusion *p)
 {
     g_n0 = VSZ(v); g_cap0 = VCAP(v); g_first0 = v->m_first; g_idx = (size_t)(p - v->m_first);
     for (size_t k = 0; k < VMAX; ++k) if (k < g_n0) g_v0[k] = v->m_first[k];
 }
-static Exclusion *Vector_insert_g(Exclusions *v, Exclusion *p, const Exclusion x) { vec_snapshot(v, p); return Vector_insert(v, p, x); }
-static Exclusion *Vector_erase_g(Exclusions *v, Exclusion *p) { vec_snapshot(v, p); return Vector_erase(v, p); }
+
+/* ghost wrappers through which the extracted Zones code reaches the vector */
+#ifdef VEC_BY_CONTRACT
+static Exclusion nondet_excl(void)
+{ Exclusion e; e.x = nondet_float(); e.xm = nondet_float(); e.c = nondet_float(); e.sm = nondet_float(); e.smx = nondet_float(); e.open = nondet_bool(); return e; }
+/* contract application by hand: assert requires; havoc assigns (+ frees); assume ensures */
+static Exclusion *Vector_insert_g(Exclusions *v, Exclusion *p, const Exclusion x)
+{
+    vec_snapshot(v, p);
+    __CPROVER_assert(VEC_INSERT_PRE(v, p), "precondition of the Vector::insert contract (proved by c17_vec_insert_c8/_c4)");
+    bool freed = false;
+    if (GROWS(g_n0, g_cap0)) {
+        Exclusion *nb = malloc(8 * sizeof(Exclusion)); __CPROVER_assume(nb != NULL);      /* is_fresh */
+        free(v->m_first); freed = true;                                                   /* frees clause */
+        v->m_first = nb; v->m_end = nb + 8;
+    }
+    const size_t cap1 = VCAP(v);
+    for (size_t k = 0; k < VMAX; ++k) if (k < cap1) v->m_first[k] = nondet_excl();        /* assigns: the whole storage object */
+    v->m_last = v->m_first + (g_n0 + 1);
+    Exclusion *r = v->m_first + g_idx;
+    __CPROVER_assume(VEC_INSERT_POST_ELEMS(v, x));
+    __CPROVER_assert(VEC_INSERT_POST_SHAPE(v, r) && VEC_INSERT_POST_STORE(v, freed), "hand-applied Vector::insert contract: the constructed shape is the one the ensures clauses fix");
+    return r;
+}
+static Exclusion *Vector_erase_g(Exclusions *v, Exclusion *p)
+{
+    vec_snapshot(v, p);
+    __CPROVER_assert(VEC_ERASE_PRE(v, p), "precondition of the Vector::erase contract (proved by c17_vec_erase_c8/_c4)");
+    for (size_t k = 0; k < VMAX; ++k) if (k < g_cap0) v->m_first[k] = nondet_excl();      /* assigns: the whole storage object */
+    v->m_last = v->m_first + (g_n0 - 1);
+    __CPROVER_assume(VEC_ERASE_POST_ELEMS(v));
+    __CPROVER_assert(VEC_ERASE_POST_SHAPE(v, p, p), "hand-applied Vector::erase contract: the constructed shape is the one the ensures clauses fix");
+    return p;
+}
+#else
+Exclusion *Vector_insert_g(Exclusions *v, Exclusion *p, const Exclusion x);
+Exclusion *Vector_erase_g(Exclusions *v, Exclusion *p);
+#endif
 
 /* ------------------------------------------------------------------ spec functions over an interval set (the oracle) */
-Zones *g_z;                 /* the interval set under test */
-float g_pt; bool g_cov0;    /* ghost point (arbitrary position on the axis) and whether it was covered before the call */
-int g_at0; Exclusion g_at0v;/* index and value of the interval that strictly contained g_pt before the call (-1: none) */
-float g_ex, g_exm;          /* insert: the clamped range of e */
+float g_pt; bool g_cov0;      /* ghost point (an arbitrary position on the axis) and whether it was offered before the call */
+int g_at0; Exclusion g_at0v;  /* index and value of the interval that contained g_pt strictly inside before the call (-1: none) */
+#define ZAT(z, k) ((z)->_exclusions.m_first[k])
 
 /* sorted, disjoint (touching allowed), every interval non-inverted, all inside [_pos,_posm]; comparisons are false on NaN */
 static bool zones_wf(const Zones *z)
@@ -192,7 +280,7 @@ static bool zones_wf(const Zones *z)
     const size_t n = VSZ(&z->_exclusions);
     float prev = z->_pos;
     for (size_t k = 0; k < n; ++k) {
-        const Exclusion *e = &z->_exclusions.m_first[k];
+        const Exclusion *e = &ZAT(z, k);
         if (!(prev <= e->x && e->x <= e->xm)) return false;
         prev = e->xm;
     }
@@ -203,7 +291,7 @@ static bool zones_covers(const Zones *z, float p)
 {
     const size_t n = VSZ(&z->_exclusions);
     for (size_t k = 0; k < n; ++k) {
-        const Exclusion *e = &z->_exclusions.m_first[k];
+        const Exclusion *e = &ZAT(z, k);
         if (e->x <= p && p <= e->xm) return true;
     }
     return false;
@@ -213,57 +301,41 @@ static int zones_at(const Zones *z, float p)
 {
     const size_t n = VSZ(&z->_exclusions);
     for (size_t k = 0; k < n; ++k) {
-        const Exclusion *e = &z->_exclusions.m_first[k];
+        const Exclusion *e = &ZAT(z, k);
         if (e->x < p && p < e->xm) return (int)k;
     }
     return -1;
 }
-/* every interval has a positive weight sum and finite linear term: test_position's precondition */
+/* every interval has a positive weight sum (initialise gives >= 0.5, += of non-negative weights keeps it) */
 static bool zones_cost_wf(const Zones *z)
 {
     const size_t n = VSZ(&z->_exclusions);
-    for (size_t k = 0; k < n; ++k) {
-        const Exclusion *e = &z->_exclusions.m_first[k];
-        if (!(e->sm > 0)) return false;
-    }
+    for (size_t k = 0; k < n; ++k) if (!(ZAT(z, k).sm > 0)) return false;
     return true;
 }
-#define ZAT(z, k) ((z)->_exclusions.m_first[k])
-#define VEC_FRAME(self) (self)->_exclusions.m_first, (self)->_exclusions.m_last, (self)->_exclusions.m_end, __CPROVER_object_whole((self)->_exclusions.m_first)
+/* test_position's precondition on every interval: non-zero weight sum (either sign), finite linear term */
+static bool zones_pos_pre(const Zones *z)
+{
+    const size_t n = VSZ(&z->_exclusions);
+    for (size_t k = 0; k < n; ++k) if (!(NNAN(ZAT(z, k).sm) && ZAT(z, k).sm != 0 && FIN(ZAT(z, k).smx))) return false;
+    return true;
+}
 
-void Zones_remove(Zones *self, float x, float xm)
-__CPROVER_requires(self == g_z && VSZ(&self->_exclusions) <= NV && zones_wf(self) && zones_cost_wf(self))
-__CPROVER_requires(NNAN(x) && NNAN(xm) && NNAN(g_pt) && g_cov0 == zones_covers(self, g_pt))
-__CPROVER_assigns(VEC_FRAME(self), VEC_GHOST)
-__CPROVER_frees(self->_exclusions.m_first)
-/* sorted, disjoint, inside its bounds */
-__CPROVER_ensures(zones_wf(self))
-/* never offers a position that was excluded: neither the range excluded now ... */
-__CPROVER_ensures(zones_covers(self, g_pt) ==> !(x < g_pt && g_pt < xm))
-/* ... nor anything excluded earlier (the free set only shrinks) */
-__CPROVER_ensures(zones_covers(self, g_pt) ==> g_cov0)
-/* nothing outside the closed range is lost */
-__CPROVER_ensures((g_cov0 && !(x <= g_pt && g_pt <= xm)) ==> zones_covers(self, g_pt))
-__CPROVER_ensures(zones_cost_wf(self));
-
-void Zones_insert(Zones *self, Exclusion e)
-__CPROVER_requires(self == g_z && VSZ(&self->_exclusions) <= NV && zones_wf(self) && zones_cost_wf(self))
-__CPROVER_requires(NNAN(e.x) && NNAN(e.xm) && FIN(e.sm) && FIN(e.smx) && FIN(e.c) && e.sm >= 0)
-__CPROVER_requires(NNAN(g_pt) && g_cov0 == zones_covers(self, g_pt) && g_at0 == zones_at(self, g_pt))
-__CPROVER_requires(g_at0 < 0 || (g_at0v.c == ZAT(self, g_at0).c && g_at0v.sm == ZAT(self, g_at0).sm && g_at0v.smx == ZAT(self, g_at0).smx && FIN(g_at0v.c) && FIN(g_at0v.smx)))
-__CPROVER_assigns(VEC_FRAME(self), VEC_GHOST)
-__CPROVER_frees(self->_exclusions.m_first)
-__CPROVER_ensures(zones_wf(self))
-/* the set of offered positions is unchanged: weights never re-open an excluded position */
-__CPROVER_ensures(zones_covers(self, g_pt) == g_cov0)
-/* cost terms: e is added exactly once on the overlap, nothing outside e changes */
-__CPROVER_ensures((g_at0 >= 0 && e.x < g_pt && g_pt < e.xm) ==>
-        (zones_at(self, g_pt) >= 0 && ZAT(self, zones_at(self, g_pt)).sm == g_at0v.sm + e.sm
-         && ZAT(self, zones_at(self, g_pt)).smx == g_at0v.smx + e.smx && ZAT(self, zones_at(self, g_pt)).c == g_at0v.c + e.c))
-__CPROVER_ensures((g_at0 >= 0 && !(e.x <= g_pt && g_pt <= e.xm)) ==>
-        (zones_at(self, g_pt) >= 0 && ZAT(self, zones_at(self, g_pt)).sm == g_at0v.sm
-         && ZAT(self, zones_at(self, g_pt)).smx == g_at0v.smx && ZAT(self, zones_at(self, g_pt)).c == g_at0v.c))
-__CPROVER_ensures(zones_cost_wf(self));
+/* ---- Zones::remove(x, xm) */
+#define REMOVE_PRE(z, x, xm)      (VEC_OK(&(z)->_exclusions) && VSZ(&(z)->_exclusions) <= NV && zones_wf(z) && zones_cost_wf(z) && NNAN(x) && NNAN(xm))
+#define REMOVE_POST_WF(z)         (VEC_OK(&(z)->_exclusions) && zones_wf(z))                                 /* sorted, disjoint, inside its bounds */
+#define REMOVE_POST_EXCL(cov, x, xm) (!(cov) || !((x) < g_pt && g_pt < (xm)))                               /* never offers a position of the excluded range */
+#define REMOVE_POST_MONO(cov)     (!(cov) || g_cov0)                                                        /* ... nor anything excluded earlier */
+#define REMOVE_POST_KEEP(cov, x, xm) (!(g_cov0 && !((x) <= g_pt && g_pt <= (xm))) || (cov))                 /* nothing outside the closed range is lost */
+/* ---- Zones::insert(e) */
+#define INSERT_PRE(z, e)          (VEC_OK(&(z)->_exclusions) && VSZ(&(z)->_exclusions) <= NV && zones_wf(z) && zones_cost_wf(z) \
+                                   && NNAN((e).x) && NNAN((e).xm) && FIN((e).sm) && FIN((e).smx) && FIN((e).c) && (e).sm >= 0)
+#define INSERT_POST_SAME(cov)     ((cov) == g_cov0)                                                         /* the set of offered positions is unchanged */
+/* cost terms: e is added exactly once on the overlap, nothing outside e changes (at: index of the interval around g_pt now) */
+#define COST_IS(z, at, dsm, dsmx, dc) ((at) >= 0 && ZAT(z, at).sm == g_at0v.sm + (dsm) && ZAT(z, at).smx == g_at0v.smx + (dsmx) && ZAT(z, at).c == g_at0v.c + (dc))
+#define COST_SAME(z, at)          ((at) >= 0 && ZAT(z, at).sm == g_at0v.sm && ZAT(z, at).smx == g_at0v.smx && ZAT(z, at).c == g_at0v.c)
+#define INSERT_POST_ADD(z, at, e) (!(g_at0 >= 0 && (e).x < g_pt && g_pt < (e).xm) || COST_IS(z, at, (e).sm, (e).smx, (e).c))
+#define INSERT_POST_OUT(z, at, e) (!(g_at0 >= 0 && !((e).x <= g_pt && g_pt <= (e).xm)) || COST_SAME(z, at))
 
 /* ------------------------------------------------------------------ extracted code: Main.h helpers */
 /*@extract {'file':'src/inc/Main.h', 'sig': r'inline T min\(const T a, const T b\)', 'emit':'static float min(const float a, const float b)'}@*/
@@ -344,6 +416,7 @@ static void *realloc_elems(Exclusion *ptr, size_t bytes)
 /*@extract {'file':'src/inc/List.h', 'scope': r'class Vector\s*\{', 'sig': r'const_reference\s+operator \[\] \(size_t n\) const', 'emit':'static const Exclusion *Vector_at(const Exclusions *self, size_t n)',
    'subs':[[r'\bsize\(\)', 'Vector_size(self)', 1], [r'return m_first\[n\];', 'return &m_first[n];', 1]], 'self':['m_first']}@*/
 void Vector_reserve(Exclusions *self, size_t n);
+/*@extract {'file':'src/inc/List.h', 'scope': r'class Vector\s*\{', 'ctor': True, 'sig': r'(?<![~\w])Vector\(\)', 'emit':'static void Vector_ctor(Exclusions *self)', 'self':['m_first','m_last','m_end']}@*/
 /*@extract {'file':'src/inc/List.h', 'sig': r'void Vector<T>::reserve\(size_t n\)', 'emit':'void Vector_reserve(Exclusions *self, size_t n)', 'casts': True,
    'subs':[[r'\bcapacity\(\)', 'Vector_capacity(self)', 1], [r'\bsize\(\)', 'Vector_size(self)', 1], [r'checked_mul\(n,sizeof\(T\), requested\)', 'checked_mul(n, sizeof(Exclusion), &requested)', 1],
            [r'std::abort\(\)', 'abort()', 0], [r'\bT\b', 'Exclusion', 0], [r'\brealloc\(', 'realloc_elems(', 0]],
@@ -388,6 +461,8 @@ void Zones_remove(Zones *self, float x, float xm);
    'subs':[[r'_exclusions\.(begin|end|size|clear)\(\)', r'Vector_\1(&self->_exclusions)', 0], [r'std::numeric_limits<float>::max\(\)', 'FLT_MAX', 2],
            [r'\bfind_exclusion_under\(', 'Zones_find_exclusion_under(self, ', 1], [r'\bi->track_cost\(best_c, best_x, origin\)', 'Exclusion_track_cost(i, &best_c, &best_x, origin)', 2]],
    'refs':['cost']}@*/
+/*@extract {'file':'src/inc/Intervals.h', 'ctor': True, 'sig': r'Zones::Zones\(\)', 'emit':'static void Zones_ctor(Zones *self)',
+   'subs':[[r'_exclusions\.reserve\(', 'Vector_reserve(&self->_exclusions, ', 1]], 'self':['_margin_len','_margin_weight','_pos','_posm']}@*/
 /*@extract {'file':'src/inc/Intervals.h', 'sig': r'void Zones::initialise\(float xmin, float xmax, float margin_len,\s*float margin_weight, float a0\)', 'emit':'void Zones_initialise_XY(Zones *self, float xmin, float xmax, float margin_len, float margin_weight, float a0)',
    'subs':[[r'_exclusions\.(begin|end|size|clear)\(\)', r'Vector_\1(&self->_exclusions)', 0], [r'_exclusions\.(insert|erase)\(', r'Vector_\1_g(&self->_exclusions, ', 0], [r'_exclusions\.push_back\(', r'Vector_push_back(&self->_exclusions, ', 0],
            [r'Exclusion::weighted<O>\(', 'Exclusion_weighted_XY(', 1], [r'_exclusions\.front\(\)\.', 'Vector_front(&self->_exclusions)->', 1]],
@@ -408,8 +483,12 @@ void Zones_remove(Zones *self, float x, float xm);
    'subs':[[r'\bremove\(', 'Zones_remove(self, ', 1], [r'\bweightedAxis\(', 'Zones_weightedAxis(self, ', 2]],
    'self':['_margin_len','_margin_weight']}@*/
 
+#ifndef VEC_BY_CONTRACT
+Exclusion *Vector_insert_g(Exclusions *v, Exclusion *p, const Exclusion x) { return Vector_insert(v, p, x); }
+Exclusion *Vector_erase_g(Exclusions *v, Exclusion *p) { return Vector_erase(v, p); }
+#endif
+
 /* ------------------------------------------------------------------ harnesses */
-float nondet_float(void); bool nondet_bool(void); size_t nondet_size_t(void); uint32 nondet_u32(void); int nondet_int(void);
 static float f_of_bits(uint32 b) { union { uint32 u; float f; } v; v.u = b; return v.f; }     /* witness floats are carried as bit patterns */
 
 static Exclusion *mk_excl(float x, float xm, float c, float sm, float smx)
@@ -470,32 +549,29 @@ void h_weighted(void)
 }
 #endif
 
-/* storage: one heap object of exactly cap elements, n of them live.  cap is either n (full vector: the next insert
-   reallocates, and any access past the live elements is a pointer obligation) or 8 (the capacity Zones() reserves).
-   Constant-size allocations keep the objects typed arrays for the verifier. */
-static Exclusion *alloc_elems(size_t cap)
+/* ------------------------------------------------------------------ harness storage: ONE heap object of exactly CAPV elements
+ * (a compile-time constant per unit: symbolic-size objects and pointers that range over several candidate objects make the
+ * back end run out of memory).  CAPV = 8 is what Zones() reserves; CAPV = 4 is a block in which the next split must grow. */
+static Exclusion *alloc_elems(void)
 {
-    Exclusion *a = cap == 1 ? malloc(1 * sizeof(Exclusion)) : cap == 2 ? malloc(2 * sizeof(Exclusion)) : cap == 3 ? malloc(3 * sizeof(Exclusion))
-                 : cap == 4 ? malloc(4 * sizeof(Exclusion)) : cap == 5 ? malloc(5 * sizeof(Exclusion)) : cap == 6 ? malloc(6 * sizeof(Exclusion))
-                 : cap == 7 ? malloc(7 * sizeof(Exclusion)) : malloc(8 * sizeof(Exclusion));
-    __CPROVER_assume(a != NULL);
-    for (size_t k = 0; k < 8; ++k) if (k < cap) a[k].open = nondet_bool();        /* FRAMEWORK item 12: bool fields from malloc */
+    Exclusion *a = malloc(CAPV * sizeof(Exclusion)); __CPROVER_assume(a != NULL);
+    for (size_t k = 0; k < CAPV; ++k) a[k].open = nondet_bool();          /* FRAMEWORK item 12: bool fields from malloc */
     return a;
 }
 
-#if defined UNIT_c17_vec_insert || defined UNIT_c17_vec_erase
-static Exclusions *mk_vector(size_t n, size_t cap)
+#if defined UNIT_c17_vec_insert_c8 || defined UNIT_c17_vec_insert_c4 || defined UNIT_c17_vec_erase_c8 || defined UNIT_c17_vec_erase_c4
+static Exclusions *mk_vector(size_t n)
 {
     Exclusions *v = malloc(sizeof(Exclusions)); __CPROVER_assume(v != NULL);
-    Exclusion *a = alloc_elems(cap);
-    v->m_first = a; v->m_last = a + n; v->m_end = a + cap;
+    Exclusion *a = alloc_elems();
+    v->m_first = a; v->m_last = a + n; v->m_end = a + CAPV;
     return v;
 }
 void h_vec_insert(void)
 {
-    size_t n = nondet_size_t(), cap = nondet_size_t(), idx = nondet_size_t();
-    __CPROVER_assume(n < VMAX && cap >= 1 && cap <= 8 && n <= cap && idx <= n);
-    Exclusions *v = mk_vector(n, cap);
+    size_t n = nondet_size_t(), idx = nondet_size_t();
+    __CPROVER_assume(n < VMAX && n <= CAPV && idx <= n);
+    Exclusions *v = mk_vector(n);
     Exclusion x; x.open = nondet_bool();
     vec_snapshot(v, v->m_first + idx);
     Exclusion *r = Vector_insert(v, v->m_first + idx, x);
@@ -504,9 +580,9 @@ void h_vec_insert(void)
 }
 void h_vec_erase(void)
 {
-    size_t n = nondet_size_t(), cap = nondet_size_t(), idx = nondet_size_t();
-    __CPROVER_assume(n <= VMAX && cap >= 1 && cap <= 8 && n <= cap && idx < n);
-    Exclusions *v = mk_vector(n, cap);
+    size_t n = nondet_size_t(), idx = nondet_size_t();
+    __CPROVER_assume(n <= CAPV && idx < n);
+    Exclusions *v = mk_vector(n);
     vec_snapshot(v, v->m_first + idx);
     Exclusion *r = Vector_erase(v, v->m_first + idx);
     (void)r;
@@ -514,44 +590,143 @@ void h_vec_erase(void)
 }
 #endif
 
-/* ------------------------------------------------------------------ bounded units: an arbitrary interval set with at most NV intervals */
-#if defined UNIT_c17_remove || defined UNIT_c17_insert
-static Zones *mk_zones(size_t n, size_t cap, const uint32 *bx, const uint32 *bxm, uint32 bpos, uint32 bposm)
+/* ------------------------------------------------------------------ level 2: an arbitrary interval set with at most NV intervals */
+static Zones *mk_zones(size_t n, const uint32 *bx, const uint32 *bxm, const uint32 *bc, const uint32 *bsm, const uint32 *bsmx, uint32 bpos, uint32 bposm)
 {
     Zones *z = malloc(sizeof(Zones)); __CPROVER_assume(z != NULL);
-    Exclusion *a = alloc_elems(cap);
+    Exclusion *a = alloc_elems();
     for (size_t k = 0; k < NV; ++k)
-        if (k < n) { a[k].x = f_of_bits(bx[k]); a[k].xm = f_of_bits(bxm[k]); a[k].c = nondet_float(); a[k].sm = nondet_float(); a[k].smx = nondet_float(); a[k].open = nondet_bool(); }
-    z->_exclusions.m_first = a; z->_exclusions.m_last = a + n; z->_exclusions.m_end = a + cap;
+        if (k < n) { a[k].x = f_of_bits(bx[k]); a[k].xm = f_of_bits(bxm[k]); a[k].c = f_of_bits(bc[k]); a[k].sm = f_of_bits(bsm[k]); a[k].smx = f_of_bits(bsmx[k]); }
+    z->_exclusions.m_first = a; z->_exclusions.m_last = a + n; z->_exclusions.m_end = a + CAPV;
     z->_pos = f_of_bits(bpos); z->_posm = f_of_bits(bposm);
     z->_margin_len = nondet_float(); z->_margin_weight = nondet_float();
     return z;
 }
+/* inputs (bit patterns, so that the witness is exact), the ghost point and what was true of it before the call */
 #define ZONES_INPUT \
-    size_t w_n = nondet_size_t(), w_cap = nondet_size_t(); \
-    uint32 w_x[NV], w_xm[NV], w_pos = nondet_u32(), w_posm = nondet_u32(), w_a = nondet_u32(), w_b = nondet_u32(), w_pt = nondet_u32(); \
-    __CPROVER_assume(w_n <= NV && (w_cap == 8 || (w_cap == w_n && w_n >= 1))); \
-    Zones *z = mk_zones(w_n, w_cap, w_x, w_xm, w_pos, w_posm); \
-    __CPROVER_assume(zones_wf(z) && zones_cost_wf(z)); \
-    g_z = z; g_pt = f_of_bits(w_pt); __CPROVER_assume(NNAN(g_pt)); \
-    g_cov0 = zones_covers(z, g_pt); g_at0 = zones_at(z, g_pt); if (g_at0 >= 0) g_at0v = ZAT(z, g_at0);
-#endif
+    size_t w_n = nondet_size_t(); \
+    uint32 w_x[NV], w_xm[NV], w_c[NV], w_sm[NV], w_smx[NV], w_pos = nondet_u32(), w_posm = nondet_u32(), w_a = nondet_u32(), w_b = nondet_u32(), w_pt = nondet_u32(); \
+    __CPROVER_assume(w_n <= NV && w_n <= CAPV); \
+    Zones *z = mk_zones(w_n, w_x, w_xm, w_c, w_sm, w_smx, w_pos, w_posm); \
+    const float a = f_of_bits(w_a), b = f_of_bits(w_b); \
+    g_pt = f_of_bits(w_pt); __CPROVER_assume(NNAN(g_pt));
+#define GHOST_BEFORE \
+    g_cov0 = zones_covers(z, g_pt); g_at0 = zones_at(z, g_pt); if (g_at0 >= 0) g_at0v = ZAT(z, g_at0); \
+    const float pos0 = z->_pos, posm0 = z->_posm, ml0 = z->_margin_len, mw0 = z->_margin_weight; const Zones *const z0 = z;
+/* frame: the object holds the same bounds and margins; NaN-safe (bit-wise) */
+#define FRAME_OK (FBITS(z->_pos) == FBITS(pos0) && FBITS(z->_posm) == FBITS(posm0) && FBITS(z->_margin_len) == FBITS(ml0) && FBITS(z->_margin_weight) == FBITS(mw0))
 
-#ifdef UNIT_c17_remove
+#if defined UNIT_c17_remove_c8 || defined UNIT_c17_remove_c4
 void h_remove(void)
 {
     ZONES_INPUT
-    Zones_remove(z, f_of_bits(w_a), f_of_bits(w_b));
+    __CPROVER_assume(REMOVE_PRE(z, a, b));
+    GHOST_BEFORE
+    Zones_remove(z, a, b);
+    __CPROVER_assert(REMOVE_POST_WF(z), "remove: the set stays sorted, disjoint and inside its bounds");
+    const bool cov = zones_covers(z, g_pt);
+    __CPROVER_assert(REMOVE_POST_EXCL(cov, a, b), "remove: no position of the excluded range (x,xm) is offered");
+    __CPROVER_assert(REMOVE_POST_MONO(cov), "remove: nothing that was excluded before is offered again");
+    __CPROVER_assert(REMOVE_POST_KEEP(cov, a, b), "remove: every free position outside [x,xm] stays free");
+    __CPROVER_assert(zones_cost_wf(z), "remove: weight sums stay positive");
+    __CPROVER_assert(FRAME_OK, "remove: bounds and margins are not written");
     CANARY();
 }
 #endif
 
-#ifdef UNIT_c17_insert
+#if defined UNIT_c17_insert_c8 || defined UNIT_c17_insert_c4
 void h_insert(void)
 {
     ZONES_INPUT
-    Exclusion e; e.x = f_of_bits(w_a); e.xm = f_of_bits(w_b); e.c = nondet_float(); e.sm = nondet_float(); e.smx = nondet_float(); e.open = nondet_bool();
+    uint32 w_ec = nondet_u32(), w_esm = nondet_u32(), w_esmx = nondet_u32();
+    Exclusion e; e.x = a; e.xm = b; e.c = f_of_bits(w_ec); e.sm = f_of_bits(w_esm); e.smx = f_of_bits(w_esmx); e.open = nondet_bool();
+    __CPROVER_assume(INSERT_PRE(z, e));
+    GHOST_BEFORE
+    __CPROVER_assume(g_at0 < 0 || (FIN(g_at0v.c) && FIN(g_at0v.smx)));       /* the exact-sum clause compares with ==; NaN/inf sums are excluded from it */
     Zones_insert(z, e);
+    __CPROVER_assert(REMOVE_POST_WF(z), "insert: the set stays sorted, disjoint and inside its bounds");
+    const bool cov = zones_covers(z, g_pt);
+    __CPROVER_assert(INSERT_POST_SAME(cov), "insert: the set of offered positions is unchanged (nothing re-opened, nothing lost)");
+    const int at = zones_at(z, g_pt);
+    __CPROVER_assert(INSERT_POST_ADD(z, at, e), "insert: inside e the cost terms grow by exactly e");
+    __CPROVER_assert(INSERT_POST_OUT(z, at, e), "insert: outside e the cost terms are unchanged");
+    __CPROVER_assert(zones_cost_wf(z), "insert: weight sums stay positive");
+    __CPROVER_assert(FRAME_OK, "insert: bounds and margins are not written");
+    CANARY();
+}
+#endif
+
+#ifdef UNIT_c17_exclude_margins
+void h_exclude_margins(void)
+{
+    ZONES_INPUT
+    uint32 w_mlen = nondet_u32(), w_mwt = nondet_u32(); int w_axis = nondet_int();
+    z->_margin_len = f_of_bits(w_mlen); z->_margin_weight = f_of_bits(w_mwt);
+    __CPROVER_assume(REMOVE_PRE(z, a, b) && FIN(a) && FIN(b) && FIN(z->_margin_len) && FIN(z->_margin_weight) && z->_margin_weight >= 0);
+    GHOST_BEFORE
+    Zones_exclude_with_margins(z, a, b, w_axis);
+    __CPROVER_assert(REMOVE_POST_WF(z), "exclude_with_margins: the set stays sorted, disjoint and inside its bounds");
+    const bool cov = zones_covers(z, g_pt);
+    __CPROVER_assert(REMOVE_POST_EXCL(cov, a, b), "exclude_with_margins: no position of the excluded range is offered");
+    __CPROVER_assert(REMOVE_POST_MONO(cov), "exclude_with_margins: nothing that was excluded before is offered again");
+    __CPROVER_assert(REMOVE_POST_KEEP(cov, a, b), "exclude_with_margins: every free position outside [xmin,xmax] stays free");
+    __CPROVER_assert(zones_cost_wf(z), "exclude_with_margins: weight sums stay positive");
+    __CPROVER_assert(FRAME_OK, "exclude_with_margins: bounds and margins are not written");
+    CANARY();
+}
+#endif
+
+#ifdef UNIT_c17_closest
+void h_closest(void)
+{
+    ZONES_INPUT
+    (void)b;
+    __CPROVER_assume(VEC_OK(&z->_exclusions) && zones_wf(z) && zones_pos_pre(z) && FIN(a));
+    GHOST_BEFORE
+    vec_snapshot(&z->_exclusions, z->_exclusions.m_first);
+    float *cost = malloc(sizeof(float)); __CPROVER_assume(cost != NULL);
+    const float r = Zones_closest(z, a, cost);
+    __CPROVER_assert(*cost == -1 || zones_covers(z, r), "closest: either no candidate (cost -1) or a position inside a free interval");
+    __CPROVER_assert(w_n != 0 || *cost == -1, "closest: an empty set has no candidate");
+    __CPROVER_assert(SNAP_OK(&z->_exclusions) && FRAME_OK, "closest: the set is not written");
+    CANARY();
+}
+#endif
+
+#ifdef UNIT_c17_find_under
+void h_find_under(void)
+{
+    ZONES_INPUT
+    (void)b;
+    __CPROVER_assume(VEC_OK(&z->_exclusions) && zones_wf(z) && FIN(a) && FIN(z->_pos) && FIN(z->_posm));
+    const Exclusion *it = Zones_find_exclusion_under(z, a);
+    __CPROVER_assert(SAME(it, z->_exclusions.m_first) && OFF(it) >= 0 && OFF(it) <= OFF(z->_exclusions.m_last) && OFF(it) % ESZ == 0, "find_exclusion_under: result in [begin,end]");
+    const size_t idx = (size_t)(it - z->_exclusions.m_first);
+    for (size_t k = 0; k < NV; ++k) if (k < w_n) {
+        if (k < idx) __CPROVER_assert(ZAT(z, k).xm <= a, "find_exclusion_under: intervals before the result end at or before x");
+        if (k > idx) __CPROVER_assert(ZAT(z, k).x > a, "find_exclusion_under: intervals after the result start after x");
+        if (k == idx) __CPROVER_assert((ZAT(z, k).x <= a && a < ZAT(z, k).xm) || ZAT(z, k).x > a, "find_exclusion_under: the result contains x or starts after x");
+    }
+    CANARY();
+}
+#endif
+
+#ifdef UNIT_c17_initialise
+static void Zones_construct(Zones *z) { Vector_ctor(&z->_exclusions); Zones_ctor(z); }     /* member construction order of class Zones */
+void h_initialise(void)
+{
+    ZONES_INPUT
+    const bool w_fresh = nondet_bool(), w_sd = nondet_bool();
+    if (w_fresh) { free(z->_exclusions.m_first); Zones_construct(z); }
+    else __CPROVER_assume(VEC_OK(&z->_exclusions));
+    const float ml = nondet_float(), mw = nondet_float(), a0 = nondet_float();
+    __CPROVER_assume(NNAN(a) && NNAN(b));
+    if (w_sd) Zones_initialise_SD(z, a, b, ml, mw, a0); else Zones_initialise_XY(z, a, b, ml, mw, a0);
+    __CPROVER_assert(VEC_OK(&z->_exclusions) && VCAP(&z->_exclusions) == 8 && VSZ(&z->_exclusions) == 1, "initialise: exactly one interval, storage of 8 kept");
+    __CPROVER_assert(ZAT(z, 0).x == a && ZAT(z, 0).xm == b && ZAT(z, 0).open, "initialise: the interval is the open range [xmin,xmax]");
+    __CPROVER_assert(ZAT(z, 0).sm >= 0.5f, "initialise: the initial weight sum is at least 0.5");
+    __CPROVER_assert(z->_pos == a && z->_posm == b && FBITS(z->_margin_len) == FBITS(ml) && FBITS(z->_margin_weight) == FBITS(mw), "initialise: bounds and margins stored");
+    __CPROVER_assert(!(a <= b) || (zones_wf(z) && zones_cost_wf(z)), "initialise: sorted, disjoint and in bounds for a well-formed range");
     CANARY();
 }
 #endif
